@@ -91,6 +91,77 @@ let msg_result_str (r : msg_result) : string =
   | Ok EOM -> "eom"
   | Ok (SOM h) -> "som " ^ header_fields h
 
+let link_str (l : link) : string =
+  match l with
+  | LNoCarrier -> "n" | LSearching -> "s" | LReading -> "r"
+  | LBurst b -> "B" ^ hex_of_nl b
+
+let msg_short (m : message) : string =
+  match m with
+  | EOM -> "eom"
+  | SOM h -> Printf.sprintf "som:%s:%d:%d" (hex_of_nl h.h_text) (int_of_n h.h_parity) (int_of_n h.h_voting)
+
+let transport_str (t : transport) : string =
+  match t with
+  | TIdle -> "i" | TAssembling -> "a"
+  | TMessage (Ok m) -> "M" ^ msg_short m
+  | TMessage (Err e) -> "E" ^ err_str e
+
+let event_str (e : event) : string =
+  let w = match e.ev_what with
+    | WLink LNoCarrier -> "Ln" | WLink LSearching -> "Ls" | WLink LReading -> "Lr"
+    | WLink (LBurst b) -> "LB" ^ hex_of_nl b
+    | WTransport TIdle -> "Ti" | WTransport TAssembling -> "Ta"
+    | WTransport (TMessage (Ok m)) -> "TM" ^ msg_short m
+    | WTransport (TMessage (Err er)) -> "TE" ^ err_str er in
+  Printf.sprintf "%s@%d" w (int_of_n e.ev_time)
+
+let tick_of_flags (fl : int) (b : int) : tick =
+  { t_bit = fl land 1 <> 0; t_popen = fl land 2 <> 0; t_pclose = fl land 4 <> 0; t_eq = n_of_int b }
+
+(* replay an item stream through the receiver model; returns events in order *)
+let rx_replay (cfg : rcfg) (items : string) : string =
+  let st = ref rx_init in
+  let evs = Buffer.create 4096 in
+  let first = ref true in
+  let bad = ref None in
+  let drain () =
+    let rec go () =
+      match pop_event !st with
+      | None -> ()
+      | Some (e, s') ->
+        st := s';
+        if not !first then Buffer.add_char evs ';';
+        first := false;
+        Buffer.add_string evs (event_str e);
+        go () in
+    go () in
+  if items <> "-" then
+    List.iter (fun tok ->
+        if tok <> "" then begin
+          let kind = tok.[0] in
+          let body = String.sub tok 1 (String.length tok - 1) in
+          match kind with
+          | 'G' -> st := skip !st (n_of_int (int_of_string body))
+          | 'T' ->
+            (match String.split_on_char ':' body with
+             | gap :: fl :: rest ->
+               st := skip !st (n_of_int (int_of_string gap));
+               let has_byte, b = (match rest with [ h ] -> (true, int_of_string ("0x" ^ h)) | _ -> (false, 0)) in
+               let t = tick_of_flags (int_of_string fl) b in
+               let used = uses_eq cfg !st t in
+               if used <> has_byte && !bad = None then
+                 bad := Some (Printf.sprintf "EQ-MISMATCH at sample %d (model used=%b, trace has=%b)"
+                                (int_of_n (!st).r_samples + 1) used has_byte);
+               st := step_item cfg !st (Tick t);
+               drain ()
+             | _ -> failwith "bad tick token")
+          | _ -> failwith "bad item token"
+        end)
+      (String.split_on_char ',' items);
+  let r = if Buffer.length evs = 0 then "-" else Buffer.contents evs in
+  match !bad with None -> r | Some m -> m ^ " " ^ r
+
 let handle (line : string) : string =
   let toks = List.filter (fun s -> s <> "") (String.split_on_char ' ' line) in
   match toks with
@@ -176,6 +247,62 @@ let handle (line : string) : string =
     done;
     Printf.sprintf "%016Lx" !h
   | [ "orig"; o; c ] -> hex_of_nl (originator_from_org_and_call (nl_of_hex o) (nl_of_hex c))
+  | [ "framer"; pfx; inv; script ] ->
+    let c = { max_prefix_bit_errors = n_of_int (int_of_string pfx); max_invalid_bytes = n_of_int (int_of_string inv) } in
+    let st = ref FIdle in
+    let out = List.filter_map (fun t ->
+        if t = "" then None else begin
+          let k = t.[0] and rest = String.sub t 1 (String.length t - 1) in
+          let (l, s') = match k with
+            | 'b' -> framer_input c !st (n_of_int (int_of_string ("0x" ^ rest))) false
+            | 'r' -> framer_input c !st (n_of_int (int_of_string ("0x" ^ rest))) true
+            | 'e' -> framer_end !st
+            | _ -> failwith "bad framer token" in
+          st := s'; Some (link_str l)
+        end) (String.split_on_char ',' script) in
+    if out = [] then "-" else String.concat "," out
+  | [ "prefixerr"; w ] -> string_of_int (int_of_n (message_prefix_errors (n_of_int (int_of_string w))))
+  | [ "squelch"; maxerr; script ] ->
+    let me = n_of_int (int_of_string maxerr) in
+    let st = ref sq_init in
+    let out = Buffer.create 256 in
+    String.iter (fun c ->
+        match c with
+        | 'L' -> st := sq_set_lock !st true
+        | 'U' -> st := sq_set_lock !st false
+        | 'E' -> st := sq_end !st
+        | '0' .. '7' ->
+          let v = Char.code c - 48 in
+          let (o, s') = sq_input me !st (v land 1 <> 0) (v land 2 <> 0) (v land 4 <> 0) in
+          st := s';
+          (match o with
+           | SqNoCarrier -> Buffer.add_char out 'n'
+           | SqDropped -> Buffer.add_char out 'd'
+           | SqReading -> Buffer.add_char out 'r'
+           | SqPanic -> Buffer.add_string out "PANIC"
+           | SqReady (re, b) -> Buffer.add_string out (Printf.sprintf "%c%02x" (if re then 'Y' else 'y') (int_of_n b)))
+        | _ -> failwith "bad squelch token") script;
+    if Buffer.length out = 0 then "-" else Buffer.contents out
+  | [ "asm"; script ] ->
+    let st = ref asm_init in
+    let out = List.filter_map (fun t ->
+        if t = "" then None else begin
+          let k = t.[0] and rest = String.sub t 1 (String.length t - 1) in
+          let (tr, s') = match k with
+            | 'a' ->
+              (match String.split_on_char ':' rest with
+               | [ tm; hx ] -> asm_assemble !st (nl_of_hex hx) (n_of_int (int_of_string tm))
+               | _ -> failwith "bad asm token")
+            | 'i' -> asm_idle !st (n_of_int (int_of_string rest))
+            | _ -> failwith "bad asm token" in
+          st := s'; Some (transport_str tr)
+        end) (String.split_on_char ',' script) in
+    if out = [] then "-" else String.concat ";" out
+  | [ "rx"; rate; pfx; inv; pre; items ] ->
+    let cfg = { preamble_max_errors = n_of_int (int_of_string pre);
+                fc = { max_prefix_bit_errors = n_of_int (int_of_string pfx); max_invalid_bytes = n_of_int (int_of_string inv) };
+                input_rate = n_of_int (int_of_string rate) } in
+    rx_replay cfg items
   | [ "utf8"; s ] -> if valid_utf8 (nl_of_hex s) then "1" else "0"
   | _ -> Driver_ext.handle toks
 
